@@ -54,6 +54,7 @@ pub fn render_doc(doc: &Value) -> Vec<u8> {
             "s" => out.extend_from_slice(t["s"].as_str().unwrap().as_bytes()),
             "b" => out.extend_from_slice(&bytes_of(&t["b"])),
             "rep" => {
+                out.extend_from_slice(t["p"].as_str().unwrap_or("").as_bytes());
                 let s = t["s"].as_str().unwrap().as_bytes();
                 for _ in 0..t["n"].as_u64().unwrap() {
                     out.extend_from_slice(s);
@@ -157,6 +158,7 @@ fn run_case(i: usize, case: &Value, obs: &str, out: &mut dyn FnMut(&Value)) {
 
 /// child: process cases [start, ..) appending to the trace, flushing after every event
 pub fn child(o: &Opts) -> i32 {
+    crate::http::SPIN_EXITS.store(true, std::sync::atomic::Ordering::SeqCst);
     let cases = read_ndjson(o.req("cases"));
     let start = o.num("start", 0) as usize;
     let obs = o.get("obs").unwrap_or("head").to_string();
